@@ -42,14 +42,12 @@ if ! git -C "$WT" apply --check "$SEED/patch.diff" 2>>"$OUT"; then log "PATCH DO
 git -C "$WT" apply "$SEED/patch.diff"
 if (cd "$WT" && go build ./... && $T) >/tmp/seed-results/$NAME.baseline.log 2>&1; then log "baseline with the change: PASS"; else log "baseline with the change: FAIL (seed rejected)"; fi
 log "demo with the change:     $(run_demo "$WT" mutant)"
-# now the checks against /repo
-if [ -n "$(git -C /repo status --porcelain)" ]; then log "/repo is dirty, refusing"; exit 4; fi
-git -C /repo apply "$SEED/patch.diff"
+# now the checks, against the scratch worktree carrying the change (VERIF_REPO), so that /repo
+# itself stays untouched and available (equivalent to git -C /repo apply; run; git checkout)
+rm -rf "$WT/seedwork"
 for id in "$@"; do
-  (cd /verif && timeout 3600 ./bin/verifctl check "$id" --tier quick) > "/tmp/seed-results/$NAME.$id.log" 2>&1
+  (cd /verif && VERIF_REPO="$WT" VERIF_EVIDENCE_DIR=/tmp/seed-results/evidence VERIF_REPLAY_DIR=/tmp/seed-results/replays timeout 3600 ./bin/verifctl check "$id" --tier quick) > "/tmp/seed-results/$NAME.$id.log" 2>&1
   rc=$?
   nv=$(grep -c '^VIOLATION' "/tmp/seed-results/$NAME.$id.log")
   log "check $id: exit=$rc violations_printed=$nv $(grep '^RESULT' /tmp/seed-results/$NAME.$id.log | cut -c1-120)"
 done
-git -C /repo checkout -- . && git -C /repo clean -fdq -- seq rewriter cmd co.go
-[ -z "$(git -C /repo status --porcelain)" ] && log "/repo restored" || log "WARNING /repo not clean"
